@@ -8,7 +8,20 @@ SPEC = os.path.join(VERIF, "spec")
 HARNESS = os.path.join(VERIF, "harness")
 JAVA_OPTS = "-Xss512m"
 TLA_CP = "/opt/veriftools/tla/tla2tools.jar:/opt/veriftools/tla/CommunityModules-deps.jar"
-NCPU = min(16, os.cpu_count() or 4)
+def _ncpu():
+    """workers per check: HWV_NCPU if set; else all cores (max 16), throttled when the machine is already oversubscribed"""
+    if os.environ.get("HWV_NCPU"):
+        return max(1, int(os.environ["HWV_NCPU"]))
+    n = min(16, os.cpu_count() or 4)
+    try:
+        if os.getloadavg()[0] > 2 * n:
+            return max(2, n // 4)
+    except OSError:
+        pass
+    return n
+
+
+NCPU = _ncpu()
 
 
 class Infra(Exception):
@@ -269,11 +282,19 @@ class Ctx:
             cmd = ["java", "-Xmx3g", JAVA_OPTS, "-cp", TLA_CP, "tlc2.TLC", "-noGenerateSpecTE", "-workers", "1",
                    "-metadir", os.path.join(d, "meta"), "-config", "DiagTopo.cfg", "DiagTopo.tla"]
             rc, out = run(cmd, cwd=d, timeout=600, env={"EVENT": os.path.join(d, "event.ndjson")})
+            extra = ""
+            if '"e":"xml_import"' in event_line:
+                open(os.path.join(d, "DiagXml.cfg"), "w").write("INIT Init\nNEXT Next\n")
+                cmd2 = cmd[:-3] + ["-config", "DiagXml.cfg", "DiagXml.tla"]
+                rc2, out2 = run(cmd2, cwd=d, timeout=600, env={"EVENT": os.path.join(d, "event.ndjson")})
+                m2 = re.search(r'<<"EQUIVDIFF", (.*)>>', out2)
+                if m2:
+                    extra = " equiv_diff(object fields, object types, top-level fields)=" + m2.group(1)
             m = re.search(r'<<"ALLBAD", (\{.*?\})>>', out)
             f = re.search(r'<<"FIRSTBAD", "(.*?)">>', out)
             if m or f:
-                return "WellFormed clauses false after the call: first=%s all=%s" % (f.group(1) if f else "?", m.group(1) if m else "?")
-            return ""
+                return "WellFormed clauses false after the call: first=%s all=%s%s" % (f.group(1) if f else "?", m.group(1) if m else "?", extra)
+            return extra
         except Exception:
             return ""
         finally:
